@@ -222,6 +222,19 @@ def check(prop, tier, seed, t0):
         xc_cases += ncase
         for b in bad:
             xc_bad.append(dict(function=c.target, **b))
+    # lemmas are also run natively: random small instances that satisfy every `requires`, executed with the REAL functions
+    lemma_native = {}
+    for l in ls:
+        try:
+            r = native.lemma_instances(l, reg, seed, 200 if tier == 'quick' else 2000, 4 if tier == 'quick' else 40)
+        except Exception as ex:
+            r = dict(tried=0, satisfied=0, violated=[], note='instance harness error: %s' % str(ex)[:120])
+        lemma_native[l.name] = dict(tried=r['tried'], satisfied=r['satisfied'], violated=len(r['violated']), note=r.get('note', ''))
+        for v in r['violated'][:1]:
+            res = dict(kind='lemma', name=l.name)
+            o = dict(id='lemma.%s#native:%s' % (l.name, v['clause']), kind='lemma', model=v['inputs'], verdict='refuted', backend='native-instance',
+                     note='the lemma is false on the real functions for this input', goal=v['clause'], native=dict(confirmed=True))
+            violations.append((dict(kind='engine', engine=None, name='lemma.' + l.name), o))
     # findings recorded as an excluded precondition of a contract: the witness is replayed natively on every run
     for f in known['findings']:
         if f.get('kind') != 'precondition':
@@ -314,6 +327,7 @@ def check(prop, tier, seed, t0):
                bounded_checks=bounded, known_findings=kf_lines, undecided=undecided, violations=viol_records,
                consistency_unconfirmed=unconfirmed,
                translation_crosscheck=dict(functions=xc_fns, cases=xc_cases, mismatches=xc_bad[:5]),
+               lemma_native_instances=lemma_native,
                source_sha256=frontend.source_hashes(), repo=frontend.REPO,
                explanation=plan.get('explanation', ''), not_decided=plan.get('not_decided', []))
     ev = dict(property_id=prop, tier=tier, seed=seed, level=level, coverage=cov,
